@@ -27,6 +27,19 @@ var ruleTable = []RuleDef{
 	{"R-CLOSED", (*Model).ruleCLOSED, "the raw DB handle is used only by pool accessors, the transaction runner, the shutdown routine and constructors, and in accessors/runner only behind the closed-flag test"},
 	{"R-MACRO-ORDER", (*Model).ruleMACRO, "event fields read by macro expansion (cas, value) are not assigned again after the expansion call"},
 	{"R-ROWBUF", (*Model).ruleROWBUF, "row iterators return each row in storage allocated by that call"},
+	{"R-COMMIT", (*Model).ruleCOMMIT, "the transaction runner holds the bucket mutex from before Begin until after Commit/Rollback (deferred unlock), refuses closed handles, commits only when the callback returned nil, rolls back on every failing path before returning or retrying, and reports the commit error"},
+	{"R-CAS", (*Model).ruleCAS, "for every entry point with an expected CAS, each statement that writes body or xattrs is guarded inside the same transaction closure: by a WHERE conjunct cas = <expected>, or by a comparison of the expected CAS with documents.cas read through the transaction such that removing the equal edge (and the no-CAS-supplied / insert-flag edges) makes the write unreachable"},
+	{"R-RMW", (*Model).ruleRMW, "each read-modify-write loop writes back through a CAS-conditional entry point with the CAS its own read returned, reads into variables that are fresh in every iteration, retries only on a CAS mismatch, and compares a caller-supplied CAS with the read CAS before writing"},
+	{"R-FLAGS", (*Model).ruleFLAGS, "every boolean write option that some caller sets is tested in a branch that guards an error return of the function receiving it"},
+	{"R-READ-NULL", (*Model).ruleREADNULL, "the key-value read helper reports a row whose body is NULL as missing"},
+	{"R-LOCK-PAIR", (*Model).ruleLOCKPAIR, "every Lock is followed by a deferred Unlock, or is a manual pair with no return reachable while held and no calls in the region other than container/list, sync and builtins"},
+	{"R-LOCK-ORDER", (*Model).ruleLOCKORDER, "the graph 'lock B may be acquired while lock A is held' (must-hold locksets x transitive may-acquire summaries over the call graph) has no cycle and no self-edge, except a self-edge whose re-acquisition is provably dead"},
+	{"R-GUARDED", (*Model).ruleGUARDED, "every map operation on (and every assignment to) the feed registry, the collections map, the view cache and the registry maps, and every access to the closed flag, happens while the owning mutex is must-held"},
+	{"R-FEEDMAP", (*Model).ruleFEEDMAP, "the feed-registry field is assigned only on freshly constructed buckets, and collection methods address it with their own data-store name"},
+	{"R-ATOMIC-ENQ", (*Model).ruleATOMICENQ, "the event of a committed mutation is enqueued inside the bucket-mutex critical section of its commit"},
+	{"R-BACKFILL-GAP", (*Model).ruleBACKFILLGAP, "the backfill snapshot and the registration for live events form one critical section of the bucket mutex"},
+	{"R-REGISTRY", (*Model).ruleREGISTRY, "handles are handed out only after a counted increment under the registry lock; store shutdown and registry-entry removal are one critical section; deleting a bucket always reaches the removal of its files; Close releases the registry reference only on the first close and sets the closed flag under the bucket mutex"},
+	{"R-SHUTDOWN", (*Model).ruleSHUTDOWN, "the shutdown routine stops the expiry timer and closes every feed of the shared registry before closing the database"},
 }
 
 type PropDef struct {
@@ -34,6 +47,10 @@ type PropDef struct {
 	Rules       []string
 	Explanation string
 	NotDecided  string
+	Dropped     []string
+	// Scope restricts a rule's obligations, for this property, to the functions reachable
+	// from the named exported entry points of the collection type.
+	Scope map[string][]string
 }
 
 // propTable maps each claimed property to the rules that decide its structural clauses.
